@@ -7,6 +7,8 @@
                                        it only if it compiles and the 44 unit tests still pass,
                                        then run the quick checks (a fraction F of their runs,
                                        default 1/8) until one reports a violation
+  mutate.py merge FILE... --out FILE     merge result files (later ones win; caught is never downgraded)
+  mutate.py report --in FILE [--triage FILE]  markdown summary
   mutate.py rerun --in FILE --out FILE [--frac F] [--props "C02 C03 .."]  the survivors of an earlier pass against the current checks
 
 Every mutant is one token-level change on one source line (relational / arithmetic / logical
@@ -300,6 +302,28 @@ def main():
             ms = [m for m in ms if re.search(only, "%s:%d:%s" % (m["file"], m["line"], m["kind"]))]
         props = arg("--props", " ".join(ORDER)).split()
         run(ms, arg("--out"), int(arg("--slots", "4")), float(arg("--frac", "0.25")), props)
+        return
+    if cmd == "merge":
+        # merge passes: later files override earlier ones for the same mutant (file, before, after,
+        # nearest line), except that "caught" is never downgraded to "survived" (a rerun with a
+        # subset of the checks or a fraction of the runs says nothing about the other checks)
+        out = {}
+        for f in sys.argv[2:]:
+            if f.startswith("--"):
+                break
+            for l in open(f):
+                r = json.loads(l)
+                if "file" not in r:
+                    continue
+                k = (r["file"], r["before"], r["after"], r["line"] // 8)
+                old = out.get(k)
+                if old and old["status"] == "caught" and r["status"] == "survived":
+                    continue
+                out[k] = r
+        with open(arg("--out"), "w") as o:
+            for r in out.values():
+                o.write(json.dumps(r) + "\n")
+        print(len(out), "mutants")
         return
     if cmd == "report":
         report(arg("--in"), arg("--triage"))
